@@ -2661,9 +2661,10 @@ void Analyser::AnalyserImpl::addInvalidVariableIssue(const AnalyserInternalVaria
 
     auto issue = Issue::IssueImpl::create();
     auto realVariable = variable->mVariable;
+    auto realComponent = owningComponent(realVariable);
 
     issue->mPimpl->setDescription(descriptionStart + " '" + realVariable->name()
-                                  + "' in component '" + owningComponent(realVariable)->name()
+                                  + "' in component '" + ((realComponent != nullptr) ? realComponent->name() : std::string())
                                   + "' " + descriptionEnd + ".");
     issue->mPimpl->setReferenceRule(referenceRule);
     issue->mPimpl->mItem->mPimpl->setVariable(realVariable);
@@ -2748,6 +2749,24 @@ void Analyser::AnalyserImpl::analyseModel(const ModelPtr &model)
                     internalVariable->mIsExternal = true;
 
                     for (const auto &dependency : externalVariable->dependencies()) {
+                        // A dependency was in the model when it was added, but it may have left it since.
+                        if (owningModel(dependency) != model) {
+                            auto issue = Issue::IssueImpl::create();
+                            auto component = owningComponent(dependency);
+
+                            issue->mPimpl->setDescription("Variable '" + dependency->name()
+                                                          + "' in component '" + ((component != nullptr) ? component->name() : std::string())
+                                                          + "' is a dependency of external variable '" + variable->name()
+                                                          + "', but it does not belong to the model being analysed and will therefore be ignored.");
+                            issue->mPimpl->setLevel(Issue::Level::MESSAGE);
+                            issue->mPimpl->setReferenceRule(Issue::ReferenceRule::ANALYSER_EXTERNAL_VARIABLE_DIFFERENT_MODEL);
+                            issue->mPimpl->mItem->mPimpl->setVariable(dependency);
+
+                            addIssue(issue);
+
+                            continue;
+                        }
+
                         internalVariable->mDependencies.push_back(Analyser::AnalyserImpl::internalVariable(dependency)->mVariable);
                     }
                 }
